@@ -24,6 +24,9 @@ struct Tables {
   std::map<int, std::string> fd_names;
   std::map<int, const void*> shadow;              // fd -> data.ptr of the successful ADDs not yet DELeted
   std::set<const void*> dead;                     // pointers into operations that have completed
+  // driver hook: a returned pointer that must not reach the library although its operation has not
+  // completed yet (returns the reason, "" = fine), e.g. a completion whose execute_ was already consumed
+  std::function<std::string(const void*)> stale_hook;
   long stale_returned = 0;
 };
 inline Tables& tab() { static Tables t; return t; }
@@ -120,11 +123,13 @@ inline int sys_epoll_wait(int epfd, epoll_event* evs, int maxev, int timeout) {
       std::string names;
       for (int i = 0; i < rc; ++i) {
         const void* p = evs[i].data.ptr;
-        if (tab().dead.count(p)) {
+        std::string why = tab().dead.count(p) ? "operation already completed"
+                          : tab().stale_hook ? tab().stale_hook(p) : std::string();
+        if (!why.empty()) {
           tab().stale_returned++;
           int sfd = -1;
           for (auto& kv : tab().shadow) if (kv.second == p) sfd = kv.first;
-          dsched::action("STALE epoll_wait returned %s (operation already completed) on %s", pname(p).c_str(),
+          dsched::action("STALE epoll_wait returned %s (%s) on %s", pname(p).c_str(), why.c_str(),
                          sfd >= 0 ? fname(sfd).c_str() : "?");
           if (sfd >= 0) { epoll_event z = {}; ::epoll_ctl(epfd, EPOLL_CTL_DEL, sfd, &z); tab().shadow.erase(sfd); }
           continue;
